@@ -80,6 +80,8 @@ Proof.
   cbn in Hn. rewrite IH by tauto. destruct o; cbn in *.
   - rewrite aget_aset. destruct (N.eqb_spec k0 k); [tauto|reflexivity].
   - rewrite aget_adel. destruct (N.eqb_spec k0 k); [tauto|reflexivity].
+  - destruct (aget st k0) as [x|]; [|reflexivity]. destruct (N.eqb x e); [|reflexivity].
+    rewrite aget_aset. destruct (N.eqb_spec k0 k); [tauto|reflexivity].
 Qed.
 
 Lemma touches_false ops e k : touches ops e = false -> In k (keys_of_ops (p_ops e)) -> ~ In k (keys_of_ops ops).
